@@ -178,7 +178,11 @@ def gen_program(r, two=None):
         lines.append(line)
     prog_flags = set()
     for i in range(len(lines) - 1):
-        nxt = lines[i + 1].get("stmt")
+        # the statement a label-only line is parsed together with: the next NON-EMPTY line (blank lines are whitespace)
+        j = i + 1
+        while j < len(lines) - 1 and lines[j].get("stmt") is None and "label" not in lines[j]:
+            j += 1
+        nxt = lines[j].get("stmt")
         if lines[i].get("stmt") is None and "label" in lines[i] and nxt is not None and nxt["kind"] in ("org", "section"):
             if two is None:
                 labels.remove(lines[i]["label"])
@@ -575,7 +579,7 @@ def run_shard(spec) -> Result:
                 for rep in range(3):
                     one(gen_program(r, two=(a, b)))
     else:
-        n = (640 if spec["tier"] == "quick" else 30000) // spec["parts"]
+        n = (480 if spec["tier"] == "quick" else 8000) // spec["parts"]
         for i in range(n):
             prog = gen_program(r)
             one(prog)
